@@ -107,6 +107,8 @@ var DefaultHolds = []HoldRule{
 	{Point: "persist.beforeIntro", Until: "IntroSegment", Count: 1, Timeout: 10 * time.Millisecond, Prob: 0.3},
 	{Point: "memmerge.beforeIntro", Until: "IntroSegment", Count: 1, Timeout: 10 * time.Millisecond, Prob: 0.4},
 	{Point: "batch.send", Until: "IntroSegment", Count: 1, Timeout: 5 * time.Millisecond, Prob: 0.3},
+	{Point: "purge.bolt.plan", Until: "Eligible", Count: 1, Timeout: 10 * time.Millisecond, Prob: 0.4},
+	{Point: "purge.bolt.done", Until: "IntroSegment", Count: 1, Timeout: 5 * time.Millisecond, Prob: 0.2},
 }
 
 func (r *Run) chance(p float64) bool {
@@ -541,6 +543,19 @@ func (r *Run) Settle(timeout time.Duration) bool {
 
 func (r *Run) ForceMerge() error {
 	ctx, cancel := context.WithTimeout(context.Background(), 60*time.Second)
+	defer cancel()
+	return r.Sc.ForceMerge(ctx, nil)
+}
+
+// ForceMergeCancelled starts a forced merge whose context is cancelled after d
+// (0 = already cancelled): the merge fails or is abandoned half way.
+func (r *Run) ForceMergeCancelled(d time.Duration) error {
+	ctx, cancel := context.WithCancel(context.Background())
+	if d <= 0 {
+		cancel()
+	} else {
+		go func() { time.Sleep(d); cancel() }()
+	}
 	defer cancel()
 	return r.Sc.ForceMerge(ctx, nil)
 }
